@@ -8,6 +8,7 @@ mod evidence;
 mod exec;
 mod fine;
 mod gen;
+#[cfg(feature = "stdworld")]
 mod ioworld;
 mod lending;
 mod lifeworld;
